@@ -121,8 +121,9 @@ def judge(c, exe, job, res, record=True):
         except Exception as e:
             bad.append(("correspondence", "model driver failed on the exported DAG", dict(error=str(e)[:500], n=n)))
             continue
-        if hdr.get("wf") != "1" or hdr.get("reach") != "1":
-            bad.append(("model-hypothesis", "exported DAG violates a hypothesis of sampler_is_prior (creation order / needed set)",
+        if hdr.get("wf") != "1" or hdr.get("reach") != "1" or hdr.get("good") != "1":
+            bad.append(("model-hypothesis", "exported DAG violates a hypothesis of sampler_is_prior / rejection_probability "
+                        "(creation order / needed set / well-formed cumulative weights)",
                         dict(hdr=hdr, n=n)))
         impl = {lg: (p, r) for lg, p, r in runs}
         if len(impl) != len(runs):
